@@ -152,6 +152,12 @@ def run(tier):
         sh = lambda v: 0 if v == 0 else v + na  # noqa: E731
         b2 = [{**r, "hh": r["hh"] + hh_off, "partner": sh(r["partner"]), "spouse": sh(r["spouse"]), "e1": sh(r["e1"]), "e2": sh(r["e2"])} for r in b]
         pairs.append([dict(r) for r in a] + b2)
+    # every three-person structure in which per-family counters matter (a child covering its own needs) next to an unrelated
+    # single in another household: four persons, so ALL row orders are run (the single between the members of the family)
+    three = [p for p in pops if len(p) == 3 and any(r["eb"] for r in p) and len({r["hh"] for r in p}) == 1]
+    for a in three:
+        pairs.append([dict(r) for r in a] + [{**dict(a[0]), "hh": 1 + max(r["hh"] for r in a), "partner": 0, "spouse": 0, "e1": 0, "e2": 0, "eb": False, "gv": False}])
+    chk.notes["three_person_families_with_own_needs_child_next_to_a_single"] = len(three)
     from c12 import collect, short
 
     ev = collect(chk, pairs, rnd, 24, "pairs")
